@@ -351,6 +351,13 @@ Workload gen(uint64_t seed, bool thorough) {
             ph.kind = 0;
             std::vector<Op> ops;
             int n = (int)r.range(1, thorough ? 60 : 15);
+            if (r.chance(1, 3)) {
+                // a bulk merge as the very first operation after a query block (iteration cache is fresh at that moment)
+                Op o;
+                o.code = r.chance(1, 2) ? OP_INSERTALL : OP_EXTEND;
+                o.c = r.chance(2, 3) ? 0 : 1;
+                ops.push_back(o);
+            }
             for (int i = 0; i < n; i++) {
                 int y = (int)r.below(100);
                 if (y < 70) {
